@@ -178,6 +178,38 @@ def _is_empty(frag):
     return frag == 0
 
 
+def mutable_ids(obj, skip_templates=True):
+    """ids of every mutable object reachable from an aggregator: the containers themselves and their
+    dict/list state; sub-aggregator templates (never filled) are not followed"""
+    import histogrammar as _hg
+
+    seen = {}
+
+    def walk(o):
+        if id(o) in seen:
+            return
+        if isinstance(o, _hg.defs.Container):
+            seen[id(o)] = o
+            for name, v in o.__dict__.items():
+                if name in ("fill", "plot", "quantity", "transform", "_checkedForCrossReferences"):
+                    continue
+                if skip_templates and name == "value" and isinstance(o, (_hg.SparselyBin, _hg.Categorize, _hg.CentrallyBin)):
+                    continue
+                walk(v)
+        elif isinstance(o, dict):
+            seen[id(o)] = o
+            for v in o.values():
+                walk(v)
+        elif isinstance(o, (list, tuple)):
+            if isinstance(o, list):
+                seen[id(o)] = o
+            for v in o:
+                walk(v)
+
+    walk(obj)
+    return seen
+
+
 def classify(e):
     if isinstance(e, Boom):
         return "raise:user"
@@ -336,6 +368,10 @@ class PyExec:
             want = normalise_doc(canon_doc(op[2]))
             d = diff_doc(got, want, mode="strict")
             return ("violation: accepted a document that is not a valid serialisation (%s): %s" % (op[3], d)) if d else "ok"
+        if k == "noshare":
+            a, b = mutable_ids(P[op[1]]), mutable_ids(P[op[2]])
+            common = [type(a[i]).__name__ for i in a if i in b]
+            return ("violation: %s: %s and %s share mutable state (%s)" % (op[3], op[1], op[2], ", ".join(common[:3]))) if common else "ok"
         if k == "checkeq":
             d = diff_doc(self.state(op[1]), self.state(op[2]))
             return ("violation: %s: %s and %s differ: %s" % (op[3], op[1], op[2], d)) if d else "ok"
@@ -436,7 +472,7 @@ def expand(op, py):
     return op
 
 
-PY_ONLY_OPS = {"check_faithful", "snap", "checksnap", "checksnap_if_raised", "checkeq", "pickle", "hash", "iadd_pyonly"}
+PY_ONLY_OPS = {"noshare", "check_faithful", "snap", "checksnap", "checksnap_if_raised", "checkeq", "pickle", "hash", "iadd_pyonly"}
 
 
 def run_history(ops, model, check_states=True, py=None, replies=None, model_ops=None, expander=None):
